@@ -158,6 +158,8 @@ def gen_content(rng, spec, cfg=None):
         fresh = next(v for v in names if v not in varset)
         src = rng.pick(vars_)
         tgt = rng.pick(vars_) if rng.chance(0.5) else constant()
+        if rng.chance(0.06) and tgt in vars_:
+            src = fresh       # a reified node that refers to itself in one argument (never collapsible)
         if tgt != fresh:
             add((fresh, ':instance', concept))
             add((fresh, srole, src))
